@@ -973,22 +973,34 @@ Proof.
 Qed.
 
 Lemma logs_top_spec : forall s l r base bs,
-  numbered s base -> logs repaired s l r base = Ok bs ->
+  numbered s base -> length base = N.to_nat l -> logs repaired s l r base = Ok bs ->
   numbered s bs /\ length bs = length base /\
   exists lb ls, r = RBody lb
-    /\ (2 <= lb_len lb)%nat /\ lb_herr lb = false /\ lb_lerr lb = false /\ lb_hpresent lb = true
+    /\ (2 <= lb_len lb)%nat /\ lb_herr lb = false /\ lb_lerr lb = false
+    /\ (exists h, lb_hdr lb = Some h
+          /\ forall b, nth_error base (N.to_nat l - 1) = Some b -> b_hash b <> [] -> b_hash b = h)
     /\ lb_logs lb = Some (map Some ls)
     /\ (forall x, In x ls -> s <= lr_bnum x < s + l)
     /\ forall j b, nth_error base j = Some b -> exists b', nth_error bs j = Some b' /\ logs_block_ok ls b b'.
 Proof.
-  intros s l r base bs Hn H. unfold logs in H. destruct r as [|lb]; [discriminate|]. simpl in H.
+  intros s l r base bs Hn Hlen H. unfold logs in H. destruct r as [|lb]; [discriminate|]. simpl in H.
   destruct (lb_len lb <? 2)%nat eqn:El; [discriminate|]. apply Nat.ltb_ge in El.
   destruct (lb_herr lb) eqn:E1; [discriminate|]. destruct (lb_lerr lb) eqn:E2; [discriminate|].
-  destruct (lb_hpresent lb) eqn:E3; [|discriminate]. simpl in H.
+  destruct (lb_hdr lb) as [h|] eqn:E3; [|discriminate].
   destruct (lb_logs lb) as [lo|] eqn:E4; [|discriminate].
+  destruct (hdr_skew (s + l - 1) h base) eqn:Esk; [discriminate|].
   apply bind_ok in H. destruct H as [ls [Hs Hg]]. apply logs_scan_spec in Hs. destruct Hs as [-> Hr].
   destruct (logs_groups_local _ _ _ _ Hn Hg) as [G1 [G2 G3]].
-  split; [exact G1|]. split; [exact G2|]. exists lb, ls. repeat split; auto; try (apply Hr; assumption).
+  split; [exact G1|]. split; [exact G2|]. exists lb, ls.
+  split; [reflexivity|]. split; [exact El|]. split; [exact E1|]. split; [exact E2|]. split.
+  { exists h. split; [exact E3|]. intros b Hb Hne.
+    assert (Hj : (N.to_nat l - 1 < length base)%nat) by (apply nth_error_Some; congruence).
+    pose proof (bm_get_numbered _ _ _ _ Hn Hb) as Hg2.
+    replace (s + N.of_nat (N.to_nat l - 1)) with (s + l - 1) in Hg2 by lia.
+    unfold hdr_skew in Esk. rewrite Hg2 in Esk. apply andb_false_iff in Esk. destruct Esk as [Esk|Esk].
+    - apply negb_false_iff in Esk. apply is_nil_true in Esk. contradiction.
+    - apply negb_false_iff in Esk. apply bytes_eqb_eq in Esk. exact Esk. }
+  split; [exact E4|]. split; [exact Hr|].
   intros j b Hb. destruct (G3 j b Hb) as [b' [Hb' Hrun]]. exists b'. split; [exact Hb'|].
   apply run_groups_block_ok. rewrite (numbered_nth _ _ _ _ Hn Hb). exact Hrun.
 Qed.
@@ -1018,7 +1030,7 @@ Proof.
   { unfold attach1 in H1. unfold stage1_faithful, attach_kind.
     destruct (use_receipts p); [|destruct (use_logs p)].
     - destruct (receipts_top_spec _ _ _ _ _ Hn Hl H1) as [A1 [A2 A3]]. auto.
-    - destruct (logs_top_spec _ _ _ _ _ Hn H1) as [A1 [A2 A3]]. auto.
+    - destruct (logs_top_spec _ _ _ _ _ Hn Hl H1) as [A1 [A2 A3]]. auto.
     - inversion H1; subst mid. auto. }
   destruct S1 as [Hnm [Hlm S1]].
   unfold attach2 in H2. rewrite does_traces_repaired in H2.
@@ -1210,7 +1222,8 @@ Proof.
     simpl in H. destruct (_ <? _)%nat; [discriminate|]. eapply receipts_loop_no_panic; eauto.
   - unfold logs in H. destruct (w_logs w) as [|lb]; [discriminate|]. simpl in H.
     destruct (_ <? _)%nat; [discriminate|]. destruct (lb_herr lb); [discriminate|]. destruct (lb_lerr lb); [discriminate|].
-    destruct (negb _); [discriminate|]. destruct (lb_logs lb); [|discriminate].
+    destruct (lb_hdr lb); [|discriminate]. destruct (lb_logs lb); [|discriminate].
+    destruct (hdr_skew _ _ _); [discriminate|].
     apply bind_panic in H. destruct H as [H|[a [_ H]]]; [eapply logs_scan_no_panic; eauto | eapply logs_groups_no_panic; eauto].
   - discriminate.
 Qed.
@@ -1242,7 +1255,7 @@ Proof.
     | es i e b Hfe Hr Hi Hn1 Hb Hnum | es i ea a eb b Hfe Hr Hi Ha1 Ha2 Hb1 Hb2 Hpar
     | Hk Hr | es e Hk Hr Hin He | es Hk Hr Hsh | es i e Hk Hr Hi Hn1 Hnull | es i e rs r Hk Hr Hi Hn1 Hrs Hin Hnum
     | bes be b es i e rs r Hk Hfe Hbr Hbn Hbb Hr Hi Hn1 Hrs Hin Hh
-    | Hk Hr | lb Hk Hr Hsh | lb Hk Hr He | lb Hk Hr Hh | lb Hk Hr Hnull | lb lo Hk Hr Hlo Hin | lb lo x Hk Hr Hlo Hin Hrng
+    | Hk Hr | lb Hk Hr Hsh | lb Hk Hr He | lb Hk Hr Hh | bes be b lb h Hk Hfe Hbr Hpos Hbn Hbb Hr Hhd Hh | lb Hk Hr Hnull | lb lo Hk Hr Hlo Hin | lb lo x Hk Hr Hlo Hin Hrng
     | bes be b lb lo x i Hk Hfe Hbr Hi Hbn Hbb Hr Hlo Hin Hnum Hh
     | i Hk Hi Hr | i e Hk Hi Hr He | i e Hk Hi Hr Hnull | i e ts t Hk Hi Hr Hts Hin Hnum
     | bes be b i e ts t Hk Hfe Hbr Hbn Hbb Hi Hr Hts Hin Hh ].
@@ -1278,7 +1291,12 @@ Proof.
   - rewrite Hk in Ha. destruct Ha as [lb' [ls [E [E2 _]]]]. rewrite Hr in E. inversion E; subst lb'. lia.
   - rewrite Hk in Ha. destruct Ha as [lb' [ls [E [_ [E3 [E4 _]]]]]]. rewrite Hr in E. inversion E; subst lb'.
     destruct He; congruence.
-  - rewrite Hk in Ha. destruct Ha as [lb' [ls [E [_ [_ [_ [E5 _]]]]]]]. rewrite Hr in E. inversion E; subst lb'. congruence.
+  - rewrite Hk in Ha. destruct Ha as [lb' [ls [E [_ [_ [_ [[h [E5 _]] _]]]]]]]. rewrite Hr in E. inversion E; subst lb'. congruence.
+  - rewrite Hk in Ha. destruct Ha as [lb' [ls [E [_ [_ [_ [[h' [E5 E6]] _]]]]]]]. rewrite Hr in E. inversion E; subst lb'.
+    assert (h' = h) by congruence. subst h'.
+    destruct (FB Hfe bes Hbr) as [_ [_ [_ [EB _]]]].
+    destruct (EB (N.to_nat l - 1)%nat) as [be' [b' [B1 [B2 [B3 [B4 _]]]]]]; [lia|].
+    assert (b' = b) by congruence. subst b'. apply Hh. symmetry. apply E6; assumption.
   - rewrite Hk in Ha. destruct Ha as [lb' [ls [E [_ [_ [_ [_ [E6 _]]]]]]]]. rewrite Hr in E. inversion E; subst lb'. congruence.
   - rewrite Hk in Ha. destruct Ha as [lb' [ls [E [_ [_ [_ [_ [E6 _]]]]]]]]. rewrite Hr in E. inversion E; subst lb'.
     rewrite Hlo in E6. inversion E6; subst lo. apply in_map_iff in Hin. destruct Hin as [x [Hx _]]. discriminate.
